@@ -295,6 +295,9 @@ func c09(r *lp.Run) {
 		if s.unimpl != nil {
 			opts.Generator.IgnoreNotImplemented = []string{"all"}
 		}
+		if d := os.Getenv("C09_DUMP"); d != "" {
+			os.WriteFile(filepath.Join(d, fmt.Sprintf("sec%d.json", i)), []byte(s.doc()), 0o644)
+		}
 		pkg, err := mod.Add(fmt.Sprintf("sec%d", i), []byte(s.doc()), opts)
 		if err != nil {
 			r.Fail(lp.PropFail{Property: "C09", What: "the generator refuses a feature-matrix security spec", Input: s.doc(), Observed: err.Error(), Expected: "generated package"})
